@@ -616,3 +616,214 @@ func TestC13Crash(t *testing.T) {
 		em.Marker("end", idx)
 	}
 }
+
+// ---------------------------------------------------------------- C05: client interceptors that invoke more than once
+
+// TestC05Retry: a client built WithUnaryInterceptor / WithStreamInterceptor whose interceptor calls its invoker /
+// streamer TWICE (retry after a per-attempt deadline or cancellation with attempt 1's reply still outstanding; or both
+// attempts at once: hedging), each attempt with its own payload. In a bubble against a scripted peer that answers every
+// request under the request's id with token + 1, the late answer to the abandoned attempt before or after the answer to
+// the second one. Judged as a free history (C05Free): two calls, two distinct ids on the wire (reason 2) and every
+// attempt that reports success reports the reply to ITS OWN request (reason 9).
+func TestC05Retry(t *testing.T) {
+	em := NewEmitter()
+	defer em.Close()
+	idx := 0
+	for _, kind := range []string{"unary", "stream"} {
+		for _, mode := range []string{"retry-cancel", "retry-deadline", "hedge"} {
+			for _, lateFirst := range []bool{true, false} {
+				if !want(idx) {
+					idx++
+					continue
+				}
+				em.Marker("begin", idx)
+				var ids []uint64
+				var pairs [][2]int64
+				leaked := bubble(t, func(t *testing.T) {
+					ep := NewEndpoint("client")
+					abandon := make(chan struct{})
+					type att struct {
+						tok int64
+						got atomic.Int64
+					}
+					a1, a2 := &att{tok: 7001}, &att{tok: 7002}
+					a1.got.Store(-2)
+					a2.got.Store(-2)
+					attemptCtx := func(ctx context.Context) (context.Context, context.CancelFunc) {
+						if mode == "retry-deadline" {
+							return context.WithTimeout(ctx, time.Second)
+						}
+						return context.WithCancel(ctx)
+					}
+					unaryI := func(ctx context.Context, method string, req, reply any, _ *grpc.ClientConn, invoker grpc.UnaryInvoker, opts ...grpc.CallOption) error {
+						one := func(ctx context.Context, a *att) error {
+							var out wrapperspb.BytesValue
+							err := invoker(ctx, method, &wrapperspb.BytesValue{Value: payloadOf(a.tok)}, &out, nil, opts...)
+							if err != nil {
+								a.got.Store(-3)
+							} else {
+								a.got.Store(tokenOf(out.Value))
+							}
+							return err
+						}
+						ctx1, cancel1 := attemptCtx(ctx)
+						defer cancel1()
+						d1 := make(chan error, 1)
+						go func() { d1 <- one(ctx1, a1) }()
+						if mode == "hedge" {
+							e2 := one(ctx, a2)
+							<-d1
+							return e2
+						}
+						<-abandon
+						cancel1()
+						<-d1
+						return one(ctx, a2)
+					}
+					var s1, s2 grpc.ClientStream
+					streamI := func(ctx context.Context, desc *grpc.StreamDesc, _ *grpc.ClientConn, method string, streamer grpc.Streamer, opts ...grpc.CallOption) (grpc.ClientStream, error) {
+						ctx1, cancel1 := attemptCtx(ctx)
+						_ = cancel1
+						var err error
+						s1, err = streamer(ctx1, desc, nil, method, opts...)
+						if err != nil {
+							return nil, err
+						}
+						if mode != "hedge" {
+							<-abandon
+							cancel1()
+						}
+						s2, err = streamer(ctx, desc, nil, method, opts...)
+						return s2, err
+					}
+					cc := goat.NewClientConn(ep, "src", "dst", goat.WithUnaryInterceptor(unaryI), goat.WithStreamInterceptor(streamI))
+					reply := func(id uint64, method string, tok int64, final bool) *Rpc {
+						b, _ := proto.Marshal(&wrapperspb.BytesValue{Value: payloadOf(tok)})
+						r := &Rpc{Id: id, Header: hdr(method, "dst", "src"), Body: &goatorepo.Body{Data: b}}
+						if final {
+							r.Trailer = &goatorepo.Trailer{}
+						}
+						return r
+					}
+					firsts := func() []*Rpc { // first envelopes of calls: requests and openers
+						var out []*Rpc
+						for _, w := range ep.WrittenCopy() {
+							if w.Reset_ == nil && w.Trailer == nil {
+								out = append(out, w)
+							}
+						}
+						return out
+					}
+					step := func() {
+						synctest.Wait()
+						if mode == "retry-deadline" {
+							time.Sleep(2 * time.Second)
+							synctest.Wait()
+						}
+					}
+					ctx, cancel := context.WithCancel(context.Background())
+					defer func() {
+						cancel()
+						ep.FailRead(errInjected)
+						synctest.Wait()
+					}()
+					if kind == "unary" {
+						go func() {
+							var out wrapperspb.BytesValue
+							cc.Invoke(ctx, "/verif.Echo/Unary", &wrapperspb.BytesValue{Value: payloadOf(1)}, &out)
+						}()
+						synctest.Wait()
+						if mode != "hedge" {
+							step()
+							close(abandon)
+							synctest.Wait()
+						}
+						fs := firsts()
+						for _, w := range fs {
+							ids = append(ids, w.Id)
+						}
+						if len(fs) == 2 {
+							order := []int{0, 1}
+							if !lateFirst {
+								order = []int{1, 0}
+							}
+							for _, i := range order {
+								ep.Deliver(reply(fs[i].Id, "/verif.Echo/Unary", reqToken(fs[i])+1, true))
+								synctest.Wait()
+							}
+						}
+						for _, a := range []*att{a1, a2} {
+							if g := a.got.Load(); g >= 0 || a == a2 {
+								pairs = append(pairs, [2]int64{a.tok, g})
+							}
+						}
+						return
+					}
+					opened := make(chan struct{})
+					go func() {
+						cc.NewStream(ctx, descBidi, "/verif.Echo/Bidi")
+						close(opened)
+					}()
+					synctest.Wait()
+					if mode != "hedge" {
+						step()
+						close(abandon)
+						synctest.Wait()
+					}
+					fs := firsts()
+					for _, w := range fs {
+						ids = append(ids, w.Id)
+					}
+					if len(fs) == 2 && s2 != nil {
+						// the peer's messages: 8001 for attempt 1 (late for a retry), 8002 for attempt 2
+						order := []int{0, 1}
+						if !lateFirst {
+							order = []int{1, 0}
+						}
+						for _, i := range order {
+							ep.Deliver(reply(fs[i].Id, "/verif.Echo/Bidi", int64(8001+i), false))
+							synctest.Wait()
+						}
+						recv := func(s grpc.ClientStream) int64 {
+							var got atomic.Int64
+							got.Store(-2)
+							go func() {
+								var m wrapperspb.BytesValue
+								if err := s.RecvMsg(&m); err != nil {
+									got.Store(-3)
+								} else {
+									got.Store(tokenOf(m.Value))
+								}
+							}()
+							synctest.Wait()
+							return got.Load()
+						}
+						// what a stream receives must be what was sent under ITS id: expressed as (own token - 1, got)
+						pairs = append(pairs, [2]int64{8001, recv(s2)})
+						if mode == "hedge" && s1 != nil {
+							pairs = append(pairs, [2]int64{8000, recv(s1)})
+						}
+					} else {
+						pairs = append(pairs, [2]int64{8001, -2})
+					}
+				})
+				sort.Slice(ids, func(a, b int) bool { return ids[a] < ids[b] })
+				var sids, ps []string
+				for _, v := range ids {
+					sids = append(sids, coqU(v)) // duplicates kept: two calls under one id are not "increasing"
+				}
+				for _, p := range pairs {
+					ps = append(ps, fmt.Sprintf("(%d, %s)", p[0], coqZ(p[1])))
+				}
+				tags := []string{"interceptor-invokes-twice", "kind:" + kind, "mode:" + mode, fmt.Sprintf("late-reply-first=%v", lateFirst)}
+				if leaked {
+					tags = append(tags, "leaked-at-end")
+				}
+				em.Emit(Rec{Idx: idx, Kind: "c05-retry", Desc: map[string]any{"kind": kind, "mode": mode, "late_first": lateFirst, "ids": ids, "pairs": pairs},
+					Tags: tags, Coq: fmt.Sprintf("C05Free 2 %s %s", coqList(sids), coqList(ps))})
+				em.Marker("end", idx)
+				idx++
+			}
+		}
+	}
+}
